@@ -11,7 +11,7 @@ from sa.exc import CANCELLED
 from sa.flow import FnExit, Interp, TestAtom, WithEnter, WithExit, call_of
 
 CLAIM = {
-    "text": "Decides the lock, latch, refusal and teardown-order discipline behind the lifecycle guarantees: the acquired-while-holding graph of the standalone and asynchronous servers' locks (through resolved self-calls) is acyclic; every wait on the shutdown event happens with no lock held (its signaller must re-acquire the bootstrap lock first); shutdown() - blocking and asynchronous - cannot return on any normal path without having waited for the shutdown event; in both serve_forever implementations the ServerClosedError / ServerAlreadyRunning tests precede every store to server state and every teardown registration, and the asynchronous already-running test and the replacement of the event it reads are not separated by a suspension point (two concurrent callers cannot both pass); the closed latch is set-only, the servers factory is stored non-None only in the constructor and None only in server_close, server_activate refuses when it is None; in each exit stack the shutdown-event set is the first registration (runs last), the listener close is registered before the server tasks are cancelled-and-awaited, the locks taken during start-up live on the first context of the outer stack; the threads portal clears its loop under its lock before draining and refuses calls once cleared. server_activate reads the closed marker and registers its cancel scope with no suspension point in between (a server_close() in that window would neither clear what was read nor find a scope to cancel); NetworkServerThread.run sets the is-up event on every exit and hands that event to serve_forever. The standalone server_close() sets the closed latch on every exit; server_close() holds none of the locks that server_activate() holds while the listeners factory runs when it cancels the activation; futures shared through an attribute are awaited only through asyncio.shield.",
+    "text": "Decides the lock, latch, refusal and teardown-order discipline behind the lifecycle guarantees: the acquired-while-holding graph of the standalone and asynchronous servers' locks (through resolved self-calls) is acyclic; every wait on the shutdown event happens with no lock held (its signaller must re-acquire the bootstrap lock first); shutdown() - blocking and asynchronous - cannot return on any normal path without having waited for the shutdown event; in both serve_forever implementations the ServerClosedError / ServerAlreadyRunning tests precede every store to server state and every teardown registration, and the asynchronous already-running test and the replacement of the event it reads are not separated by a suspension point (two concurrent callers cannot both pass); the closed latch is set-only, the servers factory is stored non-None only in the constructor and None only in server_close, server_activate refuses when it is None; in each exit stack the shutdown-event set is the first registration (runs last), the listener close is registered before the server tasks are cancelled-and-awaited, the locks taken during start-up live on the first context of the outer stack; the threads portal clears its loop under its lock before draining and refuses calls once cleared. server_activate reads the closed marker and registers its cancel scope with no suspension point in between (a server_close() in that window would neither clear what was read nor find a scope to cancel); NetworkServerThread.run sets the is-up event on every exit and hands that event to serve_forever. The standalone server_close() sets the closed latch on every exit; server_close() holds none of the locks that server_activate() holds while the listeners factory runs when it cancels the activation; futures shared through an attribute are awaited only through asyncio.shield. Round 4: NetworkServerThread.join() requests shutdown() on every path before joining the thread; _run_sync_or_else() gives the 'not running' default only after the bootstrap-lock region that looks for the running server; a cancel scope published in an attribute is withdrawn on every exit (exception, cancellation, generator close).",
     "note": "Trusted: ExitStack runs callbacks LIFO on every exit; threading/asyncio lock and event semantics. Not decided: absence of deadlock over all interleavings (needs the scheduler), timing.",
     "technique": "lock-held typestate with interprocedural acquired-while-holding graph and cycle search, must-pass-through and atomic-section analyses, write-once / who-writes queries, registration-order checks on the ast program database",
 }
@@ -537,6 +537,140 @@ def check_thread_up(eng, run):
     run.ob("C18.wait", f"{runm.short}:event-handed-to-serve_forever", passes)
 
 
+def check_join_shuts_down(eng, run):
+    """NetworkServerThread.join(): the server's shutdown() is requested on every path before the thread is joined - also when the
+    server is still starting up (shutdown() itself waits for a starting server); otherwise join() waits for a serve_forever()
+    that nobody stops"""
+    from sa.analyses.must import MustCall
+    ci = eng.db.module("servers.threads_helper").classes.get("NetworkServerThread")
+    jn = ci.methods.get("join") if ci else None
+    if jn is None:
+        raise AnalysisError("anchor vanished: NetworkServerThread.join")
+
+    def is_shutdown(n):
+        return isinstance(n, ast.Call) and isinstance(n.func, ast.Attribute) and n.func.attr == "shutdown"
+
+    class BeforeJoin(MustCall):
+        def __init__(self, e):
+            super().__init__(e, is_shutdown, raising=lambda n: False)
+            self.viol = []
+            self.joins = 0
+
+        def transfer(self, node, fact):
+            if isinstance(node, ast.Call) and isinstance(node.func, ast.Attribute) and node.func.attr == "join" and isinstance(node.func.value, ast.Call) and dotted(node.func.value.func) == "super":
+                self.joins += 1
+                if fact == "no" and node not in self.viol:
+                    self.viol.append(node)
+            return super().transfer(node, fact)
+
+    an = BeforeJoin(eng)
+    Interp(an, jn).run()
+    if not an.joins:
+        raise AnalysisError("anchor vanished: super().join() in NetworkServerThread.join")
+    for v in an.viol[:1]:
+        run.finding("C18.wait", jn, _stmt_at(jn, v.lineno), "join() can wait for the thread on a path that has not asked the server to shut down: called while the server is still starting up, "
+                    "the server then comes up and serves for ever - join() never returns")
+    run.ob("C18.wait", f"{jn.short}:shutdown-requested-before-thread-join", not an.viol, joins=an.joins, shutdown_sites=an.sites)
+
+
+def check_default_after_running_test(eng, run):
+    """BaseStandaloneNetworkServerImpl._run_sync_or_else(): the 'server is not running' answer (`default()`) is given only after the
+    bootstrap-lock region that looks for the running portal / server has been passed: a shortcut in front of it (e.g. on the closed
+    latch) turns server_close() / is_serving() into no-ops while the embedded server is still running"""
+    from sa.analyses.base import RuleAnalysis
+    from sa.analyses.locks import canon_lock
+    sa_ = eng.db.cls(f"{BASE}.BaseStandaloneNetworkServerImpl")
+    fn = _meth(sa_, "_run_sync_or_else")
+    ps = [a.arg for a in fn.params()]
+    if len(ps) < 3:
+        raise AnalysisError("anchor vanished: parameters of _run_sync_or_else")
+    dflt = ps[2]
+
+    class AfterLock(RuleAnalysis):
+        tokens = ("Exception",)
+
+        def __init__(self, e):
+            super().__init__(e)
+            self.viol = []
+            self.calls = 0
+
+        def initial(self, f):
+            return [False]
+
+        def may_raise(self, node, fact):
+            return []
+
+        def transfer(self, node, fact):
+            if isinstance(node, WithEnter) and "lock" in (canon_lock(node.item.context_expr, fn) or "").lower():
+                return [True]
+            if isinstance(node, ast.Call) and isinstance(node.func, ast.Name) and node.func.id == dflt:
+                self.calls += 1
+                if not fact and node not in self.viol:
+                    self.viol.append(node)
+            return [fact]
+
+    an = AfterLock(eng)
+    Interp(an, fn).run()
+    if not an.calls:
+        raise AnalysisError("anchor vanished: default() call in _run_sync_or_else")
+    for v in an.viol[:1]:
+        run.finding("C18.latch", fn, _stmt_at(fn, v.lineno), "the 'not running' default is returned on a path that never looked (under the bootstrap lock) whether the server runs: once the closed latch is set by a refused "
+                    "close, a later server_close() / is_serving() does nothing although the server is up - the listeners stay open and serve_forever() never ends")
+    run.ob("C18.latch", f"{fn.short}:default-only-after-the-running-test", not an.viol, default_calls=an.calls)
+
+
+def check_scope_withdrawn(eng, run):
+    """a cancel scope published in an attribute (`with backend.open_cancel_scope() as self.<attr>`, so that close() can cancel the wait)
+    is withdrawn (`self.<attr> = None`) on every exit of the function, including the exception / cancellation edges and the close
+    of a context-manager generator at its yield: a stale scope makes the next accept()/activation refuse with EBUSY"""
+    from sa.analyses.base import RuleAnalysis
+    from sa.exc import CANCELLED
+
+    def published(item):
+        ov = item.optional_vars
+        ce = item.context_expr
+        if isinstance(ov, ast.Attribute) and isinstance(ce, ast.Call) and isinstance(ce.func, ast.Attribute) and ce.func.attr in ("open_cancel_scope", "move_on_after", "move_on_at"):
+            return dotted(ov)
+        return None
+
+    n = 0
+    for fn in eng.db.all_functions():
+        if isinstance(fn.node, ast.Lambda) or not fn.module.name.startswith(("easynetwork.servers", "easynetwork.lowlevel.api_async")):
+            continue
+        attrs = {a for w in own_nodes(fn.node) if isinstance(w, (ast.With, ast.AsyncWith)) for it in w.items if (a := published(it))}
+        for attr in sorted(attrs):
+            n += 1
+
+            class Pub(RuleAnalysis):
+                tokens = ("Exception", CANCELLED)
+
+                def initial(self, f):
+                    return [False]
+
+                def may_raise(self, node, fact):
+                    if isinstance(node, (ast.Await, ast.Yield, ast.YieldFrom)):
+                        return list(self.tokens)
+                    if isinstance(node, ast.Raise):
+                        return ["Exception"]
+                    return []
+
+                def transfer(self, node, fact):
+                    if isinstance(node, WithEnter) and published(node.item) == attr:
+                        return [True]
+                    if isinstance(node, ast.Assign) and isinstance(node.value, ast.Constant) and node.value.value is None and any(dotted(t) == attr for t in node.targets):
+                        return [False]
+                    return [fact]
+
+            an = Pub(eng)
+            out = Interp(an, fn).run()
+            bad = [("return", tr) for f, tr in out.ret.items() if f] + [(f"raise[{t.split('.')[-1]}]", tr) for t, m in out.exc.items() for f, tr in m.items() if f]
+            for label, tr in bad[:1]:
+                run.finding("C18.tear", fn, _stmt_at(fn, tr[-1]) if tr else fn.node, f"exit {label} with the cancel scope still published in `{attr}`: after a shutdown / cancellation during the wait the listener (kept between runs) "
+                            "refuses the next serve with EBUSY - the server cannot be restarted", tr)
+            run.ob("C18.tear", f"{fn.short}:{attr.split('.')[-1]}:scope-withdrawn-on-every-exit", not bad)
+    run.floor("C18.tear published cancel scopes", n, 2)
+
+
 def check_closed_latch_set(eng, run):
     """standalone server_close(): the closed latch is set on every exit, whether or not the server is running at that moment (it is
     set directly, or registered on an exit stack that is entered before anything can fail)"""
@@ -603,6 +737,8 @@ def check_close_not_behind_activation(eng, run):
 
 
 def run(eng, run):
+    from sa.anchors import verify as _verify_anchor_names
+    _verify_anchor_names(eng, run)
     run.not_decided += NOT_DECIDED
     check_order(eng, run)
     check_wait(eng, run)
@@ -616,6 +752,9 @@ def run(eng, run):
     check_shared_future_awaits(eng, run, "C18.tear")
     check_tear(eng, run)
     check_portal(eng, run)
+    check_join_shuts_down(eng, run)
+    check_default_after_running_test(eng, run)
+    check_scope_withdrawn(eng, run)
 
 
 # ---------------------------------------------------------------------------------------------- self-test corpus
